@@ -14,26 +14,10 @@
 (* invariants are evaluated in each of them, and the dump is replayed into *)
 (* the real Report / print_summary by vf/props/c19.py.                     *)
 (***************************************************************************)
-EXTENDS Naturals, Integers, Sequences, TLC
+EXTENDS PercentAlgo, Sequences, TLC
 
 CONSTANTS MaxTotal, Steps      \* Steps: the line counts a single AddLines may add
 
-Total(p) == p[1] + p[2] + p[3] + p[4]
-CeilDiv(a, b) == IF a <= 0 THEN 0 ELSE (a + b - 1) \div b                  \* b > 0, result >= 0
-(* ceil(100 * x / t - 0.001) as the code computes it (reals; floats may differ in the last ulp) *)
-CeilPct(x, t) == CeilDiv(100000 * x - t, 1000 * t)
-
-Algo(p) ==
-  LET t == Total(p) IN
-  IF t = 0 THEN <<100, 0, 0, 0>>
-  ELSE LET u0 == CeilPct(p[4], t)
-           h0 == CeilPct(p[3], t)
-           \* the two rounded-up figures may add up to 101: give one point back from the larger
-           u  == IF u0 + h0 > 100 /\ u0 >= h0 THEN u0 - 1 ELSE u0
-           h  == IF u0 + h0 > 100 /\ u0 < h0 THEN h0 - 1 ELSE h0
-           v0 == CeilPct(p[2], t)
-           v  == IF v0 > 100 - u - h THEN 100 - u - h ELSE v0
-       IN  <<100 - u - h - v, v, h, u>>
 Shown(o) == <<o[1] + o[2], o[3], o[4]>>                 \* what the summary displays
 
 (* ---- reference: the property ---- *)
